@@ -2127,7 +2127,8 @@ fn run_coord_case(m: &mut Model, rep: &mut Report, stream: &str, to: u64, mc: us
         };
         let Some(img) = rc.image() else { rep.disagree(stream, tr(), "unparseable Debug output of WaitForGraph", ""); return false; };
         let mo = m.ask(&line);
-        if !rep.compare(stream, tr, format!("{imp} | {img}").trim_end(), mo.trim_end()) { return false; }
+        // the property oracles below are evaluated even when model and implementation disagree
+        let agree = rep.compare(stream, tr, format!("{imp} | {img}").trim_end(), mo.trim_end());
         // oracle (the property, sentence 2): a transaction that just ended holds no lock and is absent from the
         // wait-for graph.  A lock whose Yes vote the coordinator never recorded (vote still in flight, or refused
         // by record_vote) is outside the coordinator's knowledge: counted, reported as an observation.
@@ -2165,6 +2166,7 @@ fn run_coord_case(m: &mut Model, rep: &mut Report, stream: &str, to: u64, mc: us
         if rc.pending_dense().is_empty() && rc.votes.is_empty() && rc.unrecorded.is_empty() && !rc.locks().is_empty() {
             rep.violation("DistributedTxCoordinator/locks_remain_at_quiescence", "no transaction is pending and every vote was recorded, but locks remain", tr());
         }
+        if !agree { return false; }
     }
     if record {
         let key = trace.join(";");
